@@ -157,6 +157,26 @@ def run_entry(e, quick, acc):
                 acc.outcomes[(fc, vclass, st)] += 1
                 for key, detail in out:
                     acc.violation(key, {"entry": e.label, "hostile": {f.name: _j(v)}, "pbf": pbf, "site": site}, detail)
+        # every value a discriminator byte can hold: whichever definition it selects (or none: refused), a message
+        # that IS returned must carry the value supplied at the discriminator's offset
+        for f in fields:
+            if field_class(e, f) != "discriminator" or f.path:
+                continue
+            for v in range(256):
+                kw = K.trivial_kwarg(e, dict(base_kw, **{f.name: v}))
+                acc.evaluations += 1
+                try:
+                    m = UBXMessage(e.clsid[0:1], e.clsid[1:2], e.mode, parsebitfield=pbf, **kw)
+                    got = m.payload or b""
+                except REFUSAL:
+                    acc.outcomes[("discriminator", "sweep", "refused")] += 1
+                    continue
+                except Exception as ex:  # noqa: BLE001
+                    acc.violation(f"foreign_exception|{type(ex).__name__}|discriminator|sweep", {"entry": e.label, "disc": [f.name, v], "pbf": pbf}, str(ex))
+                    continue
+                acc.outcomes[("discriminator", "sweep", "encoded")] += 1
+                if len(got) <= f.off or got[f.off] != v:
+                    acc.violation("discriminator_value_dropped|sweep", {"entry": e.label, "disc": [f.name, v], "pbf": pbf}, f"{e.label} {f.name}={v}: payload {got.hex()[:40]!r}")
         # two hostile flags inside one bitfield
         if pbf:
             by_bf = {}
@@ -211,6 +231,19 @@ def _unj(v):
 
 def replay_case(case):
     e = next(x for x in C.entries() if x.label == case["entry"])
+    if "disc" in case:
+        base_kw = dict(K.route_kwargs(e) or {})
+        base_kw.update({n: 1 for n in C._size_fields(e.pdict)})
+        name, v = case["disc"]
+        try:
+            got = UBXMessage(e.clsid[0:1], e.clsid[1:2], e.mode, parsebitfield=case["pbf"], **K.trivial_kwarg(e, dict(base_kw, **{name: v}))).payload or b""
+        except REFUSAL:
+            return []
+        except Exception as ex:  # noqa: BLE001
+            return [(f"foreign_exception|{type(ex).__name__}|discriminator|sweep", str(ex))]
+        _, fields = L.encode(e.pdict, K.trivial_kwarg(e, base_kw), case["pbf"], L.special_of(e.mode, e.clsid))
+        off = next(f.off for f in fields if f.name == name)
+        return [] if len(got) > off and got[off] == v else [("discriminator_value_dropped|sweep", got.hex()[:40])]
     base_kw = dict(K.route_kwargs(e) or {})
     base_kw.update({n: 1 for n in C._size_fields(e.pdict)})
     return judge(e, base_kw, {k: _unj(v) for k, v in case["hostile"].items()}, case["pbf"], case["site"])[1]
